@@ -43,3 +43,12 @@ Ascii/Proofs.vos Ascii/Proofs.vok Ascii/Proofs.required_vos: Ascii/Proofs.v Base
 Properties/C20.vo Properties/C20.glob Properties/C20.v.beautified Properties/C20.required_vo: Properties/C20.v Base/GoInt.vo Generated/AsmAsciiGen.vo Ascii/AsmTotal.vo Generated/AsciiGen.vo Ascii/Spec.vo Ascii/Proofs.vo
 Properties/C20.vio: Properties/C20.v Base/GoInt.vio Generated/AsmAsciiGen.vio Ascii/AsmTotal.vio Generated/AsciiGen.vio Ascii/Spec.vio Ascii/Proofs.vio
 Properties/C20.vos Properties/C20.vok Properties/C20.required_vos: Properties/C20.v Base/GoInt.vos Generated/AsmAsciiGen.vos Ascii/AsmTotal.vos Generated/AsciiGen.vos Ascii/Spec.vos Ascii/Proofs.vos
+Proto/Ext.vo Proto/Ext.glob Proto/Ext.v.beautified Proto/Ext.required_vo: Proto/Ext.v Base/GoInt.vo
+Proto/Ext.vio: Proto/Ext.v Base/GoInt.vio
+Proto/Ext.vos Proto/Ext.vok Proto/Ext.required_vos: Proto/Ext.v Base/GoInt.vos
+Generated/ProtoGen.vo Generated/ProtoGen.glob Generated/ProtoGen.v.beautified Generated/ProtoGen.required_vo: Generated/ProtoGen.v Base/GoInt.vo Proto/Ext.vo
+Generated/ProtoGen.vio: Generated/ProtoGen.v Base/GoInt.vio Proto/Ext.vio
+Generated/ProtoGen.vos Generated/ProtoGen.vok Generated/ProtoGen.required_vos: Generated/ProtoGen.v Base/GoInt.vos Proto/Ext.vos
+Proto/Model.vo Proto/Model.glob Proto/Model.v.beautified Proto/Model.required_vo: Proto/Model.v Base/GoInt.vo Proto/Ext.vo Generated/ProtoGen.vo
+Proto/Model.vio: Proto/Model.v Base/GoInt.vio Proto/Ext.vio Generated/ProtoGen.vio
+Proto/Model.vos Proto/Model.vok Proto/Model.required_vos: Proto/Model.v Base/GoInt.vos Proto/Ext.vos Generated/ProtoGen.vos
